@@ -33,6 +33,7 @@ import numpy
 
 from ..extract import HEADER, Src, lean_list, lean_str
 from . import c05_frames as fr
+from . import c05_layout as lay
 from . import c05_rowclass as rc
 
 PINNED = [["BOOLEAN", "bool"], ["BLOB", "bytes"], ["DATE", "date"], ["TIMESTAMP", "datetime"], ["TIME", "time"],
@@ -74,7 +75,7 @@ KEY_WRONG = "Incorrect Type"
 PIN_RULE = ("(if (!present) then [%s] else (if isNone then (if (!nullable) then [%s] else []) else "
             "(if (typed && (!inst)) then [%s] else [])))" % (lean_str(KEY_MISSING), lean_str(KEY_NULL), lean_str(KEY_WRONG)))
 PIN_TOP = "(if notMapping then Exit.typeError else (if excess then Exit.excess else (if errors then Exit.invalid else Exit.ok)))"
-PIN_STEPS = ["validate", "build", "size", "store", "count", "cursor"]
+PIN_STEPS = ["materialize", "cursor", "coerce", "validate", "build", "size", "store", "count", "cursor"]   # the tree as repaired (F02, F03)
 STEP_NAMES = {"validate", "build", "size", "store", "count", "cursor", "materialize", "coerce"}
 
 
@@ -615,3 +616,10 @@ def generate(o):
     facts = o.item("row.create_class", lambda: rc.create_class_facts(rowsrc.tree), rc.PIN)
     flags = o.item("row.create_class.callers", lambda: rc.call_flags(rowsrc.tree, frame.tree, conv.tree), rc.PIN_FLAGS)
     o.files["RowClass.lean"] = rc.lean_text(HEADER, facts, flags)
+
+    # ---- how a stored row is laid out, and how large a record may be
+    rel = o.item("dataframe.append.relayout", lambda: lay.resolve_relayout(frame.tree, schema.tree), lay.PIN_RELAYOUT)
+    it = o.item("schema.iter", lambda: lay.schema_iter(schema.tree), lay.PIN_ITER)
+    ff = o.item("row.create_class.fields", lambda: lay.class_fields_from(rowsrc.tree), lay.PIN_FIELDS)
+    size = o.item("row.as_bytes.size", lambda: lay.size_facts(rowsrc.tree), lay.PIN_SIZE)
+    o.files["Layout.lean"] = lay.lean_text(HEADER, rel, it, ff, size)
